@@ -12,6 +12,7 @@ import (
 	"sort"
 	"strconv"
 	"strings"
+	"sync"
 	"time"
 
 	"golang.org/x/tools/go/ssa"
@@ -94,27 +95,27 @@ type violation struct {
 }
 
 type checkRun struct {
-	prop      string
-	tier      string
-	seed      int
-	p         *Program
-	opts      verifyOpts
-	known     []KnownFinding
-	start     time.Time
-	funcs     []string
-	claimed   int
-	discharge int
-	vcs       int
-	notDecided []string
-	knownHit  []string
-	violations []violation
-	samples   []map[string]interface{}
-	bounded   []map[string]interface{}
-	outside   []string
-	covers    int
-	vacuous   []string
-	assumptions []string
-	extra     map[string]interface{}
+	prop          string
+	tier          string
+	seed          int
+	p             *Program
+	opts          verifyOpts
+	known         []KnownFinding
+	start         time.Time
+	funcs         []string
+	claimed       int
+	discharge     int
+	vcs           int
+	notDecided    []string
+	knownHit      []string
+	violations    []violation
+	samples       []map[string]interface{}
+	bounded       []map[string]interface{}
+	outside       []string
+	covers        int
+	vacuous       []string
+	assumptions   []string
+	extra         map[string]interface{}
 	disagreements []string
 }
 
@@ -194,24 +195,43 @@ func (cr *checkRun) run(noSelftest bool) int {
 	keys := cr.servedFuncs(plan)
 	cr.funcs = keys
 	// lemmas (shared by every property that uses recursive spec functions)
-	lemmaRes := cr.p.verifyLemmas(cr.opts)
-	for _, lr := range lemmaRes {
-		relevant := plan.allFuncs == false
-		if !relevant {
+	if len(keys) > 0 && !plan.allFuncs {
+		for _, lr := range cr.p.verifyLemmas(cr.opts) {
+			cr.account(lr, nil, nil, plan)
+		}
+	}
+	// functions are verified concurrently (each has few heavy VCs); results are accounted in order
+	type fres struct {
+		fr *FuncResult
+	}
+	results := make([]*FuncResult, len(keys))
+	var wg sync.WaitGroup
+	sem := make(chan struct{}, 4)
+	for i, k := range keys {
+		fc := cr.p.contracts.Funcs[k]
+		if fc.Trusted != "" {
 			continue
 		}
-		cr.account(lr, nil, nil, plan)
+		wg.Add(1)
+		sem <- struct{}{}
+		go func(i int, k string) {
+			defer wg.Done()
+			defer func() { <-sem }()
+			fopts := cr.opts
+			fopts.filter = plan.classFilter
+			fopts.workers = cr.opts.workers / 2
+			results[i] = cr.p.verifyFunc(cr.p.funcs[k], cr.p.contracts.Funcs[k], fopts)
+		}(i, k)
 	}
-	for _, k := range keys {
+	wg.Wait()
+	for i, k := range keys {
 		fn := cr.p.funcs[k]
 		fc := cr.p.contracts.Funcs[k]
 		if fc.Trusted != "" {
 			cr.assumptions = append(cr.assumptions, fmt.Sprintf("trusted contract (body not verified): %s — %s", k, fc.Trusted))
 			continue
 		}
-		fopts := cr.opts
-		fopts.filter = plan.classFilter
-		fr := cr.p.verifyFunc(fn, fc, fopts)
+		fr := results[i]
 		if fr.Err != nil {
 			cr.outside = append(cr.outside, fmt.Sprintf("%s: %v", k, fr.Err))
 			// a function that was inside the subset on the unchanged tree and no longer is: undecided, reported
@@ -382,6 +402,7 @@ func truncate(s string, n int) string {
 }
 
 func (cr *checkRun) extraChecks() {}
+
 // runFrame: the structural frame / determinism obligations of the property (DESIGN 2.6).
 func (cr *checkRun) runFrame() {
 	groups := map[string]bool{}
@@ -479,6 +500,10 @@ func (cr *checkRun) writeEvidence() {
 		"samples":                  cr.samples,
 		"solver_disagreements":     cr.disagreements,
 		"per_vc_timeout_s":         cr.opts.timeout.Seconds(),
+	}
+	if ci, ok := propertyClauses[cr.prop]; ok {
+		cov["clauses_decided"] = ci.decided
+		cov["clauses_not_decided"] = ci.notDecided
 	}
 	for k, v := range cr.extra {
 		cov[k] = v
